@@ -699,7 +699,19 @@ pub fn merge(a: &mut BTreeMap<String, u64>, b: &BTreeMap<String, u64>) {
 /// single-field mutations of a block
 pub fn mutate_block(r: &mut Rng, b: &mut Block, h: &mut Hist, pre_mult: u128, tip901: bool) -> String {
     let flip = |x: &mut tmelcrypt::HashVal| x.0[0] ^= 1;
-    match r.below(16) {
+    match r.below(18) {
+        16 | 17 => {
+            // a copy of a member transaction that differs only in its signatures (same hash_nosigs)
+            if let Some(t) = b.transactions.iter().find(|t| !t.inputs.is_empty()).cloned().or_else(|| b.transactions.iter().next().cloned()) {
+                let mut t2 = t.clone();
+                t2.sigs.push(r.bytes(3).into());
+                b.transactions.insert(t2);
+                "tx.dup-different-sigs".into()
+            } else {
+                flip(&mut b.header.coins_hash);
+                "hdr.coins_hash".into()
+            }
+        }
         0 => {
             b.header.network = if b.header.network == NetID::Custom02 { NetID::Custom03 } else { NetID::Custom02 };
             "hdr.network".into()
